@@ -244,6 +244,11 @@ func (g *Gen) typeFacts(en string, t Term, bound string, ranges bool) {
 		g.assume(en, fmt.Sprintf("(and (<= 0 (s_off %[1]s)) (<= 0 (s_len %[1]s)) (<= (s_len %[1]s) (s_cap %[1]s)) (<= (+ (s_off %[1]s) (s_cap %[1]s)) 9223372036854775807) (<= 0 (s_ref %[1]s)) (<= (s_ref %[1]s) %[2]s) (=> (= (s_ref %[1]s) 0) (= (s_cap %[1]s) 0)))", t.S, bound))
 	case *types.Pointer, *types.Map, *types.Chan:
 		g.assume(en, fmt.Sprintf("(<= %s %s)", t.S, bound))
+	case *types.Interface:
+		// representation invariant: the nil interface has exactly one representation
+		if t.Sort == "Iface" {
+			g.assume(en, fmt.Sprintf("(=> (= (i_tag %[1]s) 0) (= %[1]s %[2]s))", t.S, nilIface))
+		}
 	}
 }
 
